@@ -117,7 +117,7 @@ type c05case struct {
 }
 
 // ---------- running a case on the real zap ----------
-type c05ev struct{ kind, id int } // 0 IO leaf write, 1 hook
+type c05ev struct{ kind, id int } // 0 IO leaf write, 1 hook, 2 IO leaf sync (C06 only)
 
 type c05env struct {
 	cells   []zap.AtomicLevel
@@ -126,6 +126,9 @@ type c05env struct {
 	isObs   map[int]bool
 	evals   int
 	nerr    int
+	recSync bool                             // C06: record Sync calls of the IO leaves' sinks
+	mkSink  func(id int) zapcore.WriteSyncer // C06 child processes: file-backed buffered sinks
+	onHook  func(id int)                     // C06 child processes: hook events go to a file
 }
 
 type c05sink struct {
@@ -137,7 +140,12 @@ func (s *c05sink) Write(p []byte) (int, error) {
 	s.env.events = append(s.env.events, c05ev{0, s.id})
 	return len(p), nil
 }
-func (s *c05sink) Sync() error { return nil }
+func (s *c05sink) Sync() error {
+	if s.env.recSync {
+		s.env.events = append(s.env.events, c05ev{2, s.id})
+	}
+	return nil
+}
 
 // user payloads whose evaluation is counted
 type c05str struct{ env *c05env }
@@ -179,7 +187,11 @@ func (env *c05env) build(n *c05node) zapcore.Core {
 			env.obsLogs[n.id] = logs
 			return core
 		}
-		return zapcore.NewCore(zapcore.NewJSONEncoder(c05encCfg), &c05sink{env, n.id}, env.enabler(n.en))
+		var sink zapcore.WriteSyncer = &c05sink{env, n.id}
+		if env.mkSink != nil {
+			sink = env.mkSink(n.id)
+		}
+		return zapcore.NewCore(zapcore.NewJSONEncoder(c05encCfg), sink, env.enabler(n.en))
 	case 1:
 		return zapcore.NewNopCore()
 	case 2:
@@ -191,6 +203,9 @@ func (env *c05env) build(n *c05node) zapcore.Core {
 	case 3:
 		id := n.id
 		return zapcore.RegisterHooks(env.build(n.kids[0]), func(zapcore.Entry) error {
+			if env.onHook != nil {
+				env.onHook(id)
+			}
 			env.events = append(env.events, c05ev{1, id})
 			return nil
 		})
